@@ -340,9 +340,11 @@ macro_rules! c02_g_bbox {
 }
 const PL_DL: [Point; 2] = [Point::new(3, 0), Point::new(0, 4)];
 const PL_UR: [Point; 2] = [Point::new(0, 3), Point::new(4, 0)];
-/// C02 through the native drawing path only (the thick-stroke code hands scanline rectangles to
-/// fill_solid, which the probe target answers in closed form): everything drawn lies inside the
-/// styled bounding box
+/// C02 (and the draw() half of C01) for thick strokes through draw() only: the thick-stroke code hands
+/// scanline rectangles to fill_solid, which the native probe target answers in closed form. Everything
+/// drawn lies inside the styled bounding box; the draw_iter-only target ends with the same pixel at q.
+/// (`pixels()` of these objects is out of reach, see DESIGN A.1.) Each property's build runs only its
+/// own half.
 macro_rules! c02_g_native {
     ($name:ident, $unw:expr, [$(($shape:expr, $style:expr)),+ $(,)?]) => {
         #[cfg_attr(kani, kani::proof, kani::unwind($unw))]
@@ -352,10 +354,19 @@ macro_rules! c02_g_native {
             $( {
                 let st = $shape.into_styled($style);
                 note!("styled", st);
-                let mut a = NProbe::<Gray8>::new(q, Rectangle::new(Point::new(-100000, -100000), Size::new(200000, 200000)));
+                let big = Rectangle::new(Point::new(-100000, -100000), Size::new(200000, 200000));
+                let mut a = NProbe::<Gray8>::new(q, big);
                 st.draw(&mut a).unwrap();
                 note!("bounding_box", st.bounding_box()); note!("writes", a.writes);
-                if a.writes > 0 { check!(in_rect(&st.bounding_box(), q), "C02.inside_bbox"); }
+                if $crate::macros::focused("C02.inside_bbox") {
+                    if a.writes > 0 { check!(in_rect(&st.bounding_box(), q), "C02.inside_bbox"); }
+                }
+                if $crate::macros::focused("C01.native_eq_default") {
+                    let mut b = Probe::<Gray8>::new(q, big);
+                    st.draw(&mut b).unwrap();
+                    note!("native", a.last); note!("default", b.last);
+                    check!(a.last == b.last, "C01.native_eq_default");
+                }
                 reach!(a.writes > 0, "reach.drawn");
             } )+
         }
